@@ -562,10 +562,12 @@ class DateTime(Column):
                 value = datetime(value.year, value.month, value.day)
             else:
                 raise ValidationError("{0} '{1}' is not a datetime object".format(self.column_name, value))
-        epoch = datetime(1970, 1, 1, tzinfo=value.tzinfo)
-        offset = get_total_seconds(epoch.tzinfo.utcoffset(epoch)) if epoch.tzinfo else 0
-
-        return int((get_total_seconds(value - epoch) - offset) * 1000)
+        if value.tzinfo is not None and value.utcoffset() is not None:
+            # the instant of an aware datetime: its own UTC offset (not the zone's offset on 1970-01-01) applies
+            value = value.astimezone(timezone.utc).replace(tzinfo=None)
+        delta = value - datetime(1970, 1, 1)
+        # exact integer arithmetic (a float of seconds times 1000 can fall one millisecond short)
+        return (delta.days * 86400 + delta.seconds) * 1000 + delta.microseconds // 1000
 
 
 class Date(Column):
